@@ -327,6 +327,15 @@ func (w *W) c09Streams(th bool) []*c09Stream {
 	add(c09Build("no-final-newline", []string{`{"a":1}`, `{"b":2}`}, "\n", false))
 	add(c09Build("single", []string{`{"only":true}`}, "\n", true))
 	add(c09Build("single-no-newline", []string{`[1,2,3]`}, "\n", false))
+	// the shortest documents there are ({} and [] are two bytes: shorter than any margin or minimum the
+	// chunking code may use), alone in their chunk under byte-wise and line-wise reads
+	add(c09Build("minimal-empty-containers", []string{`{}`, `[]`, `{}`, `[]`}, "\n", true))
+	add(c09Build("minimal-mixed", []string{`[0]`, `{}`, `[]`, `{"":0}`, `[]`, `[[]]`, `{}`}, "\n", true))
+	add(c09Build("minimal-padded", []string{` {} `, "\t[]\t", `[ ]`, `{ }`, `  []`}, "\n", true))
+	add(c09Build("minimal-crlf", []string{`{}`, `[]`, ``, `{}`}, "\r\n", true))
+	add(c09Build("minimal-no-final-newline", []string{`[]`, `{}`}, "\n", false))
+	add(c09Build("minimal-single", []string{`{}`}, "\n", true))
+	add(c09Build("minimal-single-no-newline", []string{`[]`}, "\n", false))
 	mk := func(name string, n int, maxDoc int, blankEvery int) {
 		var lines []string
 		for i := 0; i < n; i++ {
